@@ -860,8 +860,8 @@ private:
     {
       if (transit_event.log_level() != LogLevel::Backtrace)
       {
-        _dispatch_transit_event_to_sinks(transit_event, thread_context.thread_id(),
-                                         thread_context.thread_name());
+        _dispatch_transit_event_to_sinks_and_report_errors(transit_event, thread_context.thread_id(),
+                                                           thread_context.thread_name());
 
         // We also need to check the severity of the log message here against the backtrace
         // Check if we should also flush the backtrace messages:
@@ -875,7 +875,7 @@ private:
           {
             transit_event.logger_base->backtrace_storage->process(
               [this](TransitEvent const& te, std::string_view thread_id, std::string_view thread_name)
-              { _dispatch_transit_event_to_sinks(te, thread_id, thread_name); });
+              { _dispatch_transit_event_to_sinks_and_report_errors(te, thread_id, thread_name); });
           }
         }
       }
@@ -919,7 +919,7 @@ private:
         // process all records in backtrace for this logger and log them
         transit_event.logger_base->backtrace_storage->process(
           [this](TransitEvent const& te, std::string_view thread_id, std::string_view thread_name)
-          { _dispatch_transit_event_to_sinks(te, thread_id, thread_name); });
+          { _dispatch_transit_event_to_sinks_and_report_errors(te, thread_id, thread_name); });
       }
     }
     else if (transit_event.macro_metadata->event() == MacroMetadata::Event::Flush)
@@ -934,6 +934,25 @@ private:
 
       // We defer notifying the caller until after this function completes.
     }
+  }
+
+  /**
+   * Dispatches a transit event and reports a sink that throws to the error notifier right here.
+   * The statement may be followed by a backtrace replay: an exception that left this function would
+   * abandon the replay half way, leaving the stored statements in place to be written again (or
+   * to be evicted unwritten) later.
+   */
+  QUILL_ATTRIBUTE_HOT void _dispatch_transit_event_to_sinks_and_report_errors(
+    TransitEvent const& transit_event, std::string_view const& thread_id, std::string_view const& thread_name)
+  {
+    QUILL_TRY { _dispatch_transit_event_to_sinks(transit_event, thread_id, thread_name); }
+#if !defined(QUILL_NO_EXCEPTIONS)
+    QUILL_CATCH(std::exception const& e) { _options.error_notifier(e.what()); }
+    QUILL_CATCH_ALL()
+    {
+      _options.error_notifier(std::string{"Caught unhandled exception."});
+    } // clang-format on
+#endif
   }
 
   /**
